@@ -121,6 +121,7 @@ class Engine:
         self.entry_abase = None
         self.stdout = []                        # ghost stdout: (pc, template)
         self.external_classes = {"depq.DEPQ": "DEPQ"}
+        self.elem_family = {}
 
     # ------------------------------------------------------------------ helpers
     def fresh(self, base, sort):
@@ -466,6 +467,8 @@ class Engine:
                 if not isinstance(v, Ref):
                     self.unsupported("modifies target %s is not an object" % t)
                 kind = {"elems": "elems", "len_": "len", "obj": "obj"}[tree.func.id]
+                if kind == "elems" and (v.cls or "").startswith(("vec:", "list:")):
+                    self.elem_family[v.e.get_id()] = "$elemR" if self.seq_family(v) == "vec:real" else "$elemI"
                 return (kind, v.e, self.spec_class(v) if kind == "obj" else None)
             if isinstance(tree, ast.Attribute):
                 v = self.eval(state, tree.value)
@@ -480,6 +483,7 @@ class Engine:
         return ref.cls if ref.cls and not ref.cls.startswith(("vec:", "list:")) else None
 
     _class_fields = None
+    elem_family = {}
     ghost_fields = {"SearchData": ("gseq", "gn", "gpos"), "SearchDataDualQueue": ("gseq", "gn", "gpos"),
                     "DEPQ": ("gitems", "gkeys", "glen", "gcnt"), "Method": ("gtop",), "Problem": ("gcalls", "gevals")}
 
@@ -514,7 +518,10 @@ class Engine:
             arr = self.harr(state, name)
             state.heap[name] = self.fresh("hv_all_" + name, arr.sort())
         elif kind == "elems":
+            fam = self.elem_family.get(r.get_id())      # element family of the sequence, when its static type is known
             for key, S in (("$elemR", ElemR), ("$elemI", ElemI)):
+                if fam is not None and key != fam:
+                    continue
                 a = state.heap.get(key)
                 if a is None:
                     a = z3.Const("H0_" + self.prefix + key, S)
@@ -1521,6 +1528,7 @@ class Engine:
         if f.name == "append":
             n = self.vec_len(state, ref)
             self.check_frame(state, ("elems", ref.e, None), node)
+            self.check_frame(state, ("len", ref.e, None), node)
             key, a = self.elem_heap(state, self.seq_family(ref))
             sort = RealS if key == "$elemR" else IntS
             v = args[0]
